@@ -1,6 +1,6 @@
 #!/usr/bin/env python3
 """selftest/translator_variants.py [name ...]: the translator channel (bin/extract + bin/rust2lean.py + the theorems of
-Lemmas/SourceReassembly.lean and Lemmas/SourceProtocol.lean) tried on scratch copies of /repo/src with small edits of the
+Lemmas/SourceReassembly.lean, Lemmas/SourceProtocol.lean and Lemmas/SourceReceivers.lean) tried on scratch copies of /repo/src with small edits of the
 translated functions: behaviour-preserving rewrites (R*: every theorem must still check, or the function must drop out of the
 translatable subset) and property-breaking edits (B*: the theorem named must break, unless the function drops out).
 Nothing is written to /repo or to the Lean project (bin/srccheck compiles into a private directory). Prints one line per
@@ -11,6 +11,9 @@ V = os.path.dirname(os.path.dirname(os.path.abspath(__file__)))
 SCRATCH = "/tmp/translator_variants"
 PK = open("/repo/src/packet.rs").read()
 PR = open("/repo/src/protocol.rs").read()
+US = open("/repo/src/interface/usart.rs").read()
+CA = open("/repo/src/interface/can.rs").read()
+SE = open("/repo/src/interface/serial.rs").read()
 
 
 def rep(s, a, b):
@@ -66,6 +69,46 @@ SEND_HEAD = """        if packet.device_address == self.device_address {
 BCAST = """            if self.device_address != BROADCAST_ADDRESS {
                 return Ok(());
             }"""
+ADD_IFLET = """if let Err(err) = packet_builder.add_frame(ross_frame) {
+                                self.packet_builder = None;
+
+                                return Err(InterfaceError::BuilderError(err));
+                            }"""
+ADD_MATCH = """match packet_builder.add_frame(ross_frame) {
+                                Ok(_) => {}
+                                Err(err) => {
+                                    self.packet_builder = None;
+                                    return Err(InterfaceError::BuilderError(err));
+                                }
+                            }"""
+NEW_ASSIGN = """self.packet_builder = match PacketBuilder::new(ross_frame) {
+                                Ok(builder) => Some(builder),
+                                Err(err) => return Err(InterfaceError::BuilderError(err)),
+                            };"""
+NEW_STMT = """match PacketBuilder::new(ross_frame) {
+                                Ok(builder) => {
+                                    self.packet_builder = Some(builder);
+                                }
+                                Err(err) => return Err(InterfaceError::BuilderError(err)),
+                            }"""
+NEW_CLEAR = """self.packet_builder = match PacketBuilder::new(ross_frame) {
+                                Ok(builder) => Some(builder),
+                                Err(err) => {
+                                    self.packet_builder = None;
+                                    return Err(InterfaceError::BuilderError(err));
+                                }
+                            };"""
+NEW_DROP = """self.packet_builder = match PacketBuilder::new(ross_frame) {
+                                Ok(builder) => None,
+                                Err(err) => return Err(InterfaceError::BuilderError(err)),
+                            };"""
+DELIVER = """                                self.packet_builder = None;
+
+                                return Ok(packet);"""
+US_FERR = "Err(err) => return Err(InterfaceError::FrameError(err)),"
+CA_ADD_CLEAR = """                            self.packet_builder = None;
+
+                            return Err(InterfaceError::BuilderError(err));"""
 
 # name -> (file, text, expected broken theorem or None for harmless)
 VARIANTS = {
@@ -118,6 +161,21 @@ VARIANTS = {
     "pr-B6-nextid-plus2": ("protocol.rs", rep(PR, "first_available_id += 1;", "first_available_id += 2;"), "src_nextHandlerId_eq"),
     "pr-B7-tick-owned-false": ("protocol.rs", rep(PR, "                    self.handle_packet(&packet, true);\n                } else {", "                    self.handle_packet(&packet, false);\n                } else {"), "src_tick_eq"),
     "pr-B8-send-dispatch-not-owned": ("protocol.rs", rep(PR, SEND_HEAD, "        if packet.device_address == self.device_address {\n            self.handle_packet(&packet, false);\n"), "src_sendPacket_eq"),
+    # ---- interface/*.rs (frame-level tail of try_get_packet), harmless
+    "rx-R1-add-as-match": ("interface/usart.rs", rep(US, ADD_IFLET, ADD_MATCH), None),
+    "rx-R2-zero-flipped": ("interface/usart.rs", rep(US, "if packet_builder.frames_left() == 0 {", "if 0 == packet_builder.frames_left() {"), None),
+    "rx-R3-less-than-one": ("interface/serial.rs", rep(SE, "if packet_builder.frames_left() == 0 {", "if packet_builder.frames_left() < 1 {"), None),
+    "rx-R4-new-as-statement": ("interface/usart.rs", rep(US, NEW_ASSIGN, NEW_STMT), None),
+    "rx-R5-new-failure-clears": ("interface/usart.rs", rep(US, NEW_ASSIGN, NEW_CLEAR), None),
+    "rx-R6-frame-error-block": ("interface/usart.rs", rep(US, US_FERR, "Err(err) => {\n                                return Err(InterfaceError::FrameError(err));\n                            }"), None),
+    # ---- interface/*.rs, breaking
+    "rx-B1-stale-after-add-error": ("interface/usart.rs", rep(US, "                                self.packet_builder = None;\n\n                                return Err(InterfaceError::BuilderError(err));", "                                return Err(InterfaceError::BuilderError(err));"), "src_usartAccept_eq"),
+    "rx-B2-stale-after-delivery": ("interface/usart.rs", rep(US, DELIVER, "                                return Ok(packet);"), "src_usartAccept_eq"),
+    "rx-B3-frame-error-clears": ("interface/usart.rs", rep(US, US_FERR, "Err(err) => {\n                                self.packet_builder = None;\n                                return Err(InterfaceError::FrameError(err));\n                            }"), "src_usartAccept_eq"),
+    "rx-B4-deliver-one-early": ("interface/serial.rs", rep(SE, "if packet_builder.frames_left() == 0 {", "if packet_builder.frames_left() == 1 {"), "src_serialAccept_eq"),
+    "rx-B5-new-not-stored": ("interface/usart.rs", rep(US, NEW_ASSIGN, NEW_DROP), "src_usartAccept_eq"),
+    "rx-B6-can-stale-after-add-error": ("interface/can.rs", rep(CA, CA_ADD_CLEAR, "                            return Err(InterfaceError::BuilderError(err));"), "src_canAccept_eq"),
+    "rx-B7-deliver-le-one": ("interface/can.rs", rep(CA, "if packet_builder.frames_left() == 0 {", "if packet_builder.frames_left() <= 1 {"), "src_canAccept_eq"),
 }
 
 
